@@ -70,6 +70,7 @@ let () =
       incr cases;
       count ("class_" ^ kind ^ "_" ^ cls);
       let failc k name detail = fail id k name (trunc detail) in
+      (try
       let parse_geom (d : string) : q geomT =
         let gn = parse_dump d in
         if not (xy_finite gn) then failc "SPEC" "nonfinite_ordinate" d;
@@ -87,6 +88,13 @@ let () =
       let tol = qmult mag tol_factor in
       let tol2 = qmult tol tol in
       let vs = operand_vertices operands and l0 = operand_segs operands in
+      (* general-position class: admitted only with clearance >= 1e-6 x magnitude (checked exactly) *)
+      let admitted =
+        cls <> "float" ||
+        (let thr = qmult mag { qnum = Zpos XH; qden = pos_of_int 1_000_000 } in
+         clearance_ok (qmult thr thr) l0 vs) in
+      if not admitted then count "excluded_clearance_below_1e-6" else begin
+      if cls = "float" then count "admitted_general_position";
       (* a result all of whose vertices are (exactly) arrangement vertices is left as it is: snap_pt
          returns such a point unchanged *)
       let vkeys : (int * int * int * int, unit) Hashtbl.t = Hashtbl.create 64 in
@@ -161,12 +169,38 @@ let () =
             [ ("U", mk OpUnion); ("I", mk OpInter); ("D", mk OpDiff); ("S", mk OpSym); ("UA", one a fa); ("UB", one b fb) ]
         end else
           [ ("M", (fun wi -> many_f mems (wpt wi)), many_f mems, (OpUnion, coll, nothing)) ] in
-      (* laws: pairs of results that must be the same point set *)
-      let same_pairs =
+      (* laws: pairs of results that must be the same point set (kind SPEC), and the calls the
+         modelled dispatch predicts to be the same call (kind CORR: Union(a, EMPTY) is UnaryUnion(a), ...) *)
+      let empty_dump = "GC 0 0" in
+      let dispatch_pairs =
+        if kind = "P" then begin
+          let a = Option.get a and b = Option.get b in
+          let ea = is_empty a and eb = is_empty b in
+          let chk name o ea eb ua ub =
+            let d = dispatch o ea eb in
+            count (match d with DEmpty -> "dispatch_empty" | DUnaryA -> "dispatch_unary_a" | DUnaryB -> "dispatch_unary_b" | DEngine -> "dispatch_engine");
+            match d with
+            | DEmpty ->
+              (match dump_of name with
+               | Some got when got <> empty_dump -> failc "CORR" ("dispatch_" ^ name) ("model: Geometry{}  impl: " ^ got)
+               | _ -> ());
+              []
+            | DUnaryA -> [ (name, ua, "dispatch_" ^ name) ]
+            | DUnaryB -> [ (name, ub, "dispatch_" ^ name) ]
+            | DEngine -> [] in
+          List.concat [
+            chk "U" OpUnion ea eb "UA" "UB"; chk "I" OpInter ea eb "UA" "UB";
+            chk "D" OpDiff ea eb "UA" "UB"; chk "S" OpSym ea eb "UA" "UB";
+            chk "Ur" OpUnion eb ea "UB" "UA"; chk "Ir" OpInter eb ea "UB" "UA"; chk "Sr" OpSym eb ea "UB" "UA";
+            chk "Uaa" OpUnion ea ea "UA" "UA"; chk "Iaa" OpInter ea ea "UA" "UA";
+            chk "Daa" OpDiff ea ea "UA" "UA"; chk "Saa" OpSym ea ea "UA" "UA" ]
+        end else [] in
+      let law_pairs =
         if kind = "P" then [ ("Ur", "U", "commutative_union"); ("Ir", "I", "commutative_intersection");
                              ("Sr", "S", "commutative_symdiff"); ("Uaa", "UA", "idempotent_union");
                              ("Iaa", "UA", "idempotent_intersection"); ("PT", "UA", "partition") ]
         else [ ("UU", "M", "unionmany_singleton") ] in
+      let same_pairs = law_pairs @ dispatch_pairs in
       let differing = List.filter (fun (x, y, _) ->
           match dump_of x, dump_of y with Some dx, Some dy -> dx <> dy | _ -> false) same_pairs in
       let ctx = operands
@@ -189,6 +223,10 @@ let () =
           match get n with
           | Some (Good (_, _, rs, _, moved)) ->
             count ("judged_" ^ n);
+            count ("result_type_" ^ (match rs with
+                | GPoint _ -> "Point" | GLine _ -> "LineString" | GPoly _ -> "Polygon"
+                | GMPoint _ -> "MultiPoint" | GMLine _ -> "MultiLineString" | GMPoly _ -> "MultiPolygon"
+                | GColl (_, []) -> "EmptyCollection" | GColl _ -> "MixedCollection"));
             if moved = 0 then count "exact_results" else count "snapped_results";
             let v = judge_with ar rs e x in
             if not (verdict_ok v) then begin
@@ -217,44 +255,31 @@ let () =
                 (Printf.sprintf "class=%s symptom=%s result=%s%s" klass symptom n first)
             end
           | _ -> ()) primaries;
-      (* ---------------- CORR: the dispatch and the assembly switch *)
-      let empty_dump = "GC 0 0" in
-      if kind = "P" then begin
-        let a = Option.get a and b = Option.get b in
-        let chk name o ea eb ua ub =
-          let d = dispatch o ea eb in
-          count (match d with DEmpty -> "dispatch_empty" | DUnaryA -> "dispatch_unary_a" | DUnaryB -> "dispatch_unary_b" | DEngine -> "dispatch_engine");
-          match d, dump_of name with
-          | DEmpty, Some got -> if got <> empty_dump then failc "CORR" ("dispatch_" ^ name) ("model: Geometry{}  impl: " ^ got)
-          | DUnaryA, Some got -> (match dump_of ua with Some u when u <> got -> failc "CORR" ("dispatch_" ^ name) ("model: UnaryUnion(a)=" ^ u ^ "  impl: " ^ got) | _ -> ())
-          | DUnaryB, Some got -> (match dump_of ub with Some u when u <> got -> failc "CORR" ("dispatch_" ^ name) ("model: UnaryUnion(b)=" ^ u ^ "  impl: " ^ got) | _ -> ())
-          | _ -> () in
-        let ea = is_empty a and eb = is_empty b in
-        chk "U" OpUnion ea eb "UA" "UB"; chk "I" OpInter ea eb "UA" "UB";
-        chk "D" OpDiff ea eb "UA" "UB"; chk "S" OpSym ea eb "UA" "UB";
-        chk "Ur" OpUnion eb ea "UB" "UA"; chk "Ir" OpInter eb ea "UB" "UA"; chk "Sr" OpSym eb ea "UB" "UA";
-        chk "Uaa" OpUnion ea ea "UA" "UA"; chk "Iaa" OpInter ea ea "UA" "UA";
-        chk "Daa" OpDiff ea ea "UA" "UA"; chk "Saa" OpSym ea ea "UA" "UA"
-      end;
+      (* ---------------- CORR: the assembly switch (the dispatch is judged with the laws below) *)
       Hashtbl.iter (fun n r -> match r with
           | Good (d, rq, _, _, _) ->
             if reassemble rq <> rq then failc "CORR" ("assemble_" ^ n) d;
             if not (shape_ok rq) then (if not (List.exists (fun (m, _, _, _) -> m = n) primaries) then failc "SPEC" ("shape_" ^ n) d)
           | _ -> ()) table;
       (* ---------------- laws between the implementation's own outputs *)
+      let judge_pair (x, y, law) =
+        let is_dispatch = String.length law > 9 && String.sub law 0 9 = "dispatch_" in
+        match get x, get y with
+        | Some (Good (dx, _, sx, _, _)), Some (Good (dy, _, sy, _, _)) ->
+          if dx = dy then count (if is_dispatch then "dispatch_identical_output" else "law_identical_output")
+          else begin
+            count (if is_dispatch then "dispatch_judged_by_oracle" else "law_judged_by_oracle");
+            let mx = mem_p (prep sx) and my = mem_p (prep sy) in
+            if not (List.for_all (fun wi -> mx (wpt wi) = my (wpt wi)) w) then begin
+              if is_dispatch then failc "CORR" law ("model: same call as " ^ y ^ "=" ^ dy ^ "  impl: " ^ dx)
+              else failc "SPEC" ("law_" ^ law) (x ^ "=" ^ dx ^ "  " ^ y ^ "=" ^ dy)
+            end
+          end
+        | _ -> () in
+      List.iter judge_pair dispatch_pairs;
       if !primary_failed then count "laws_skipped_primary_failed"
       else begin
-        List.iter (fun (x, y, law) ->
-            match get x, get y with
-            | Some (Good (dx, _, sx, _, _)), Some (Good (dy, _, sy, _, _)) ->
-              if dx = dy then count "law_identical_output"
-              else begin
-                count "law_judged_by_oracle";
-                let mx = mem_p (prep sx) and my = mem_p (prep sy) in
-                if not (List.for_all (fun wi -> mx (wpt wi) = my (wpt wi)) w) then
-                  failc "SPEC" ("law_" ^ law) (x ^ "=" ^ dx ^ "  " ^ y ^ "=" ^ dy)
-              end
-            | _ -> ()) same_pairs;
+        List.iter judge_pair law_pairs;
         if kind = "P" then begin
           List.iter (fun n -> match get n with
               | Some (Good (d, rq, _, _, _)) -> if not (is_empty rq) then failc "SPEC" ("law_self_" ^ n ^ "_not_empty") d
@@ -269,6 +294,10 @@ let () =
           if envjoin = "ne" then failc "SPEC" "law_envelope_join" "Envelope(Union(a,b)) <> join of the operands' envelopes"
         end
       end;
+      end
+       with
+       | Stack_overflow -> failc "CORR" "oracle_exception" "stack overflow while judging this case"
+       | e -> failc "CORR" "oracle_exception" (Printexc.to_string e));
       if !samples < 4 && !cases mod 97 = 3 then begin
         incr samples;
         Printf.printf "SAMPLE\t%s\n" (trunc line)
